@@ -10,7 +10,7 @@
    Value arithmetic: Num/Value.v (value_checked_add, value_checked_sub = the code since /repo 34fa344).
    min-ADA of an output is an oracle [min_ada : output -> result N] (utils.rs min_ada_for_output; property C07 models it).
    No proofs in this file (proofs: Collateral/CollateralProofs.v). *)
-From CSL Require Import Base.Prelude Num.Value.
+From CSL Require Import Base.Prelude Num.Value Num.ValueNorm.
 Local Open Scope N_scope.
 
 (* ------------------------------------------------------------------------------------------- *)
@@ -55,8 +55,10 @@ Fixpoint col_insert (k : txin) (v : value) (m : col_inputs) : col_inputs :=
   end.
 
 (* a TxInputsBuilder filled by successive add_*_input calls *)
+(* push_input stores the amount without zero quantities and asset-less policies (Num/ValueNorm.v; since the /repo fix
+   "the builder drops zero quantities and asset-less policies of the amounts it is given") *)
 Definition col_of_list (l : list (txin * value)) : col_inputs :=
-  fold_left (fun m kv => col_insert (fst kv) (snd kv) m) l [].
+  fold_left (fun m kv => col_insert (fst kv) (value_without_empty_entries (snd kv)) m) l [].
 
 Record builder : Type := mkBuilder {
   b_collateral : col_inputs;          (* self.collateral *)
